@@ -220,6 +220,8 @@ inductive Step (x : Bool) : State → State → Prop
   | restart {s : State} {u : Nat} {s' : State} : x = true → restart s u false = .ok s' → Step x s s'
   | mainRestart {s : State} {u : Nat} {f : Flow} : x = true → s.flows u = some f →
       Step x s (setFlow s u { f with heads := 1, status := .waiting })
+  /-- `in_progress.add(uid)` of the repaired recursion (Models/LifetimeV.lean): only the ghost field `busy` changes -/
+  | busy {s : State} (b : List Nat) : Step x s { s with busy := b }
 
 inductive Steps (x : Bool) : State → State → Prop
   | refl (s : State) : Steps x s s
@@ -239,6 +241,7 @@ theorem Step.mono {s t : State} (h : Step false s t) : Step true s t := by
   | push e he => exact .push e he
   | restart hx _ => cases hx
   | mainRestart hx _ => cases hx
+  | busy b => exact .busy b
 
 theorem Steps.mono {s t : State} (h : Steps false s t) : Steps true s t := by
   induction h with
@@ -544,6 +547,7 @@ theorem Step.cases_actions {x : Bool} {s t : State} (h : Step x s t) :
   | push _ _ => exact Or.inl ⟨rfl, rfl⟩
   | restart _ h => exact Or.inl ⟨(restart_frame _ _ _ _ h).1, (restart_frame _ _ _ _ h).2.1⟩
   | mainRestart _ _ => exact Or.inl ⟨rfl, rfl⟩
+  | busy _ => exact Or.inl ⟨rfl, rfl⟩
 
 /-- number of `Stop` events for action `a` among the outgoing events -/
 def stops (a : Nat) (out : List OEv) : Nat := out.count (.stop a)
@@ -705,6 +709,7 @@ theorem Step.flows_rel {s t : State} (h : Step false s t) :
   | push e _ => exact ⟨rfl, fun v hv => hv, fun v f hv => ⟨f, hv, FlowUpd.rfl' f⟩⟩
   | restart hx _ => cases hx
   | mainRestart hx _ => cases hx
+  | busy _ => exact ⟨rfl, fun v hv => hv, fun v f hv => ⟨f, hv, FlowUpd.rfl' f⟩⟩
 
 theorem Steps.flows_rel {s t : State} (h : Steps false s t) :
     t.order = s.order ∧ (∀ v, s.flows v = none → t.flows v = none) ∧
@@ -739,6 +744,7 @@ theorem Steps.queue_append {s t : State} (h : Steps false s t) :
       · exact hle _ h
     | restart hx _ => cases hx
     | mainRestart hx _ => cases hx
+    | busy _ => exact ⟨l, by simpa using hl, hle⟩
 
 theorem removeFromParent_flows (s : State) (u : Nat) (s' : State) (h : removeFromParent s u = .ok s') :
     s'.queue = s.queue ∧ s'.actions = s.actions ∧ s'.out = s.out ∧
